@@ -101,7 +101,7 @@ def run_cases(chk, exe, cases, rng):
             sizes = [len(enc)] + ([len(extra)] if extra else [])
             def s_chk(o, sizes=sizes):
                 got = o.split()[1] if len(o.split()) > 2 else ""
-                return None if got == ",".join(map(str, sizes)) and o.split()[-1] == "rc=0" else "stream reader consumed %s, elements are %s (%s)" % (got, sizes, o[:100])
+                return None if got == ",".join(map(str, sizes)) and o.split()[-1] == "rc=0" and "eq=0" in o.split() else "stream reader consumed %s, elements are %s (%s)" % (got, sizes, o[:100])
             cmds.append(("S " + (enc + extra).hex(), s_chk, "stream:file"))
             cmds.append(("K " + (enc + extra).hex(), s_chk, "stream:socket"))
         elif c["t"] == "hdr":
@@ -137,6 +137,25 @@ def run_cases(chk, exe, cases, rng):
                     return "size arithmetic: spec %d bytes, libksi %s" % (size, o[:220])
                 return None
             cmds.append(("B 70000 " + spec, z_chk, "oversize" if x["size"] < 0 else "size"))
+        elif c["t"] == "stream":
+            el = bytes(x["hdr"]) + bytes((7 * i + 3) % 251 for i in range(c["len"]))
+            follow = bytes([2, 1, 0x5a])
+            def st_chk(o, x=x, c=c, total=len(el)):
+                w = o.split()
+                got = w[1] if len(w) > 3 else ""
+                if x["ok"]:
+                    # the element is delivered whole, then the reader goes on with the following element if that fits as well
+                    want = "%d" % total + (",3" if c["buf"] >= 3 else ",!2")
+                    if got != want or "eq=0" not in w:
+                        return "stream reader with a %d-byte buffer on a %d-byte element: spec delivers it (consumes %s), libksi %s" % (c["buf"], total, want, o[:120])
+                    return None
+                if not got.startswith("!") or w[-1] == "rc=0":
+                    return "stream reader with a %d-byte buffer accepted a %d-byte element: %s" % (c["buf"], total, o[:120])
+                if int(got[1:]) > x["used"]:
+                    return "stream reader refused a %d-byte element for its %d-byte buffer after consuming %s bytes (header is %d)" % (total, c["buf"], got[1:], x["used"])
+                return None
+            cmds.append(("s %d %s" % (c["buf"], (el + follow).hex()), st_chk, "streambuf:file"))
+            cmds.append(("k %d %s" % (c["buf"], (el + follow).hex()), st_chk, "streambuf:socket"))
         elif c["t"] == "prefix":
             for b1 in (0, 1, 0x7f, 0xff, rng.randrange(256)):
                 raw = bytes([c["b0"], b1, 0, 3, 1, 2, 3])
